@@ -28,6 +28,23 @@ def handle (op : String) (j : Json) : Option (R Json) :=
       let xs := (List.range S1.toNat).map fun (t : Nat) => ratJ (gridCol (fun k => (k : Rat)) 2 S0 S1 sh[0]! sh[1]! s t)
       pure (okJ [("shape", ints #[S0, S1]), ("y", Json.arr ys.toArray), ("x", Json.arr xs.toArray),
                  ("exact_shape", ints #[outShape Rat.ceil (fun k => (k : Rat)) sh[0]! s, outShape Rat.ceil (fun k => (k : Rat)) sh[1]! s])])
+  | "rs.coords_arg" => some do
+      -- util.rescale with an explicit `shape=` argument: `arg` = [m] (scalar) or [m0, m1] (pair); the output shape comes from the
+      -- regenerated branches (gridShapeArg), the coordinates from the regenerated grid at that shape. `prod`: the float64 products
+      -- fl(m·s) the code forms (float seam as in rs.coords)
+      let sh ← getInts j "shape"
+      let s ← ratOf j "scale"
+      let a ← getInts j "arg"
+      let arg : ShapeArg := if a.size = 1 then .scalar a[0]! else .pair a[0]! a[1]!
+      let exact := gridShapeArg Rat.ceil (fun k => (k : Rat)) sh[0]! sh[1]! arg s
+      let (S0, S1) ← match optVal j "prod" with
+        | some (Json.arr p) => do
+            let p0 ← p[0]!.getArr?; let p1 ← p[1]!.getArr?
+            pure (Rat.ceil (mkRat (← p0[0]!.getInt?) (← p0[1]!.getNat?)), Rat.ceil (mkRat (← p1[0]!.getInt?) (← p1[1]!.getNat?)))
+        | _ => pure exact
+      let ys := (List.range S0.toNat).map fun (t : Nat) => ratJ (gridRow (fun k => (k : Rat)) 2 S0 S1 sh[0]! sh[1]! s t)
+      let xs := (List.range S1.toNat).map fun (t : Nat) => ratJ (gridCol (fun k => (k : Rat)) 2 S0 S1 sh[0]! sh[1]! s t)
+      pure (okJ [("shape", ints #[S0, S1]), ("y", Json.arr ys.toArray), ("x", Json.arr xs.toArray), ("exact_shape", ints #[exact.1, exact.2])])
   | "rs.plane" => some do
       -- Plane.rescale's own bookkeeping: per-axis pixel scale (or none), amplitude factor, which arrays are interpolated
       let s ← ratOf j "scale"
